@@ -45,3 +45,23 @@ check("C05", "exploration", "runtime monitoring: executable model of the expecte
       "result/exception, `available`, adopted maxdata and the timeout used after the public key are compared with the model.",
       "Trusted: the model of expected host behaviour in checks/c05.py (written from the property statement and AOSP protocol.txt); keyed-hash stub signers (real RSA in a subset).",
       "DESIGN.md section 4 C05")
+check("C07", "exploration", "runtime monitoring: sync-record oracle at the simulator's filesystem, WRTE-size rule in the stream monitor, callback differential, real directories with cwd decoys",
+      "push runs against a sync service that parses the host's byte stream back into SEND/DATA/DONE records and files; sizes sweep every exact-fit point of the send buffer "
+      "for several maxdata values and sample around chunk/maxdata boundaries up to multi-MiB; directory pushes use real directories while the working directory holds decoys.",
+      "Trusted: the simulator's sync parser (vlib/simdev.py), the temp-directory fixture.",
+      "DESIGN.md section 4 C07")
+check("C08", "exploration", "runtime monitoring: destination bytes vs. simulator file under adversarial DATA-record / WRTE / read chunking, incl. a cut at every reply offset",
+      "pull runs against adversarial record sizes and WRTE boundaries (including inside 8-byte sync headers, at every offset for small files) and read fragmentations; "
+      "the destination (real file or BytesIO) must equal the simulator's file and callbacks must sum to the size.",
+      "Trusted: the simulator's reply builder; Python file I/O.",
+      "DESIGN.md section 4 C08")
+check("C09", "exploration", "runtime monitoring: result oracle vs. simulator directory/stat tables under every packetisation",
+      "list/stat replies with boundary 32-bit fields and arbitrary name bytes are cut into WRTEs at random and at every offset; results must equal what the device sent, and the "
+      "stream must be closed afterwards.",
+      "Trusted: the simulator's DENT/STAT encoders (vlib/wire.py).",
+      "DESIGN.md section 4 C09")
+check("C10", "exploration", "runtime monitoring: exception-type/reason oracle and virtual-time bound over all FAIL positions relative to the device's OKAYs",
+      "The sync service rejects transfers at every point; the adversary places the FAIL WRTE before or after the OKAYs of later host WRTEs (or holds it to the very end); "
+      "exception class, carried reason and elapsed virtual time are checked; records with known but invalid ids must raise InvalidResponseError.",
+      "Trusted: the model of adbd's behaviour after a failure (keeps acknowledging, drains, closes); unknown sync ids are out of scope.",
+      "DESIGN.md section 4 C10")
